@@ -30,6 +30,7 @@ func EncodeStyled(ext string, docs []tv.T, style string) ([]byte, error) {
 			if err := n.Encode(tv.ToGo(d)); err != nil {
 				return nil, err
 			}
+			QuoteMergeStrings(n)
 			switch style {
 			case "flow":
 				setFlow(n)
